@@ -17,7 +17,7 @@ RULE = ("breadth-first exploration of ALL histories up to the depth bound over a
 SCALE = ('two long seeds (14 and 16 bars with rests of 10 and 11 bars beside tracks of 2-3 bars) explored to depth 2; split into 14 x 36 and 12 x 96 equal parts re-joined by concatenation')
 ASSUMPTIONS = ["bool and numpy integer types do not count as 'integer type' for ticks"]
 REQUIRED_FLAGS = ["bar_padded", "split_with_remainder", "tokens_checked", "detokenised", "bars_split", "composition_built",
-                  "scaled", "wrapped_transpose", "split_many_equal_parts"]
+                  "scaled", "wrapped_transpose", "split_many_equal_parts", "detokenised_edited_stream"]
 
 TOKEN_RE = re.compile(r"^[a-z]+(_\d+)*(-[a-z]+(_\d+)+)*$")
 _TOK = {}
@@ -121,6 +121,30 @@ def _detok(w):
     return "detokenised"
 
 
+def _detok_edited(where):
+    """detokenise a hand-edited stream: the current token list with a time-signature token put behind the first rest
+    inside a bar / in front of the second bar token / directly behind the first bar token (as a model would emit it)"""
+    def f(w):
+        if not w[2]:
+            raise ValueError("no tokens")
+        toks = list(w[2])
+        sig = next(t for t in tok().dictionary if t.startswith("tsg_") and t not in toks[:3])
+        if where == "behind_rest":
+            k = next((i for i, t in enumerate(toks) if t.startswith("rst_")), None)
+        elif where == "before_bar":
+            bars = [i for i, t in enumerate(toks) if t == "bar"]
+            k = bars[1] - 1 if len(bars) > 1 else (bars[0] - 1 if bars else None)
+        else:
+            k = next((i for i, t in enumerate(toks) if t == "bar"), None)
+        if k is None:
+            raise ValueError("no place")
+        toks.insert(k + 1, sig)
+        s = tok().detokenise(toks)
+        w[0], w[1], w[2] = s[0], s[1], toks
+        return "detokenised_edited_stream"
+    return f
+
+
 def _u(fn, flag=None):
     def f(w, i):
         fn(w[i])
@@ -153,6 +177,8 @@ UNARY = {
     "transpose+1": _u(lambda s: s.transpose(1)),
     "transpose+100": _u(lambda s: s.transpose(100), "wrapped_transpose"),
     "cutoff": _u(lambda s: s.cutoff(12, 6)),
+    "scale1": _u(lambda s: s.scale(1), "scaled"),
+    "scale1_nq": _u(lambda s: s.scale(1, quantise_afterwards=False), "scaled"),
     "scale2": _u(lambda s: s.scale(2), "scaled"),
     "scale3": _u(lambda s: s.scale(3, quantise_afterwards=False), "scaled"),
     "split30": _split,
@@ -175,6 +201,9 @@ BINARY = {
     "tokenise": _tok_whole,
     "tokenise_bars": _tok_bars,
     "detokenise": _detok,
+    "detok_sig_behind_rest": _detok_edited("behind_rest"),
+    "detok_sig_before_bar": _detok_edited("before_bar"),
+    "detok_sig_behind_bar": _detok_edited("behind_bar"),
 }
 OPNAMES = [f"{n}:{i}" for n in UNARY for i in (0, 1)] + list(BINARY)
 
